@@ -14,7 +14,7 @@ Trace == ndJsonDeserialize("trace.ndjson")
 VARIABLES st, pre, bad, l
 tvars == <<st, pre, bad, l>>
 Line == Trace[l]
-NoObs == [ring |-> <<>>, load |-> [ok |-> FALSE, keys |-> <<>>], res |-> TRUE, fchg |-> FALSE]
+NoObs == [ring |-> <<>>, load |-> [ok |-> FALSE, keys |-> <<>>], res |-> TRUE, fchg |-> FALSE, rep |-> TRUE]
 
 TraceInit == st = KR(<<>>, <<>>) /\ pre = NoObs /\ bad = {} /\ l = 1
 
